@@ -348,6 +348,10 @@ impl Gen {
             self.burst_left = rng.range(1, 6) as u32;
         }
         if self.profile.long_busy {
+            if self.profile.prop != "C18" {
+                // a few seconds per block: hundreds of blocks inside a 15-minute window
+                return Some((1, *rng.pick(&[0u64, 1, 1, 2, 5, 5, 9])));
+            }
             return Some((1, *rng.pick(&[0u64, 1, 5, 15, 15, 60])));
         }
         if rng.chance(self.profile.p_clock.0, self.profile.p_clock.1) {
